@@ -163,6 +163,11 @@ contract(US + "_best_minimum_cut", params={"self": "obj:UnsupervisedOPF", "min_k
                  le(W(v.self, 0, v.self.subgraph.nodes[0].adjacency[r]), v.max_distances[r]),
                  gt(W(v.self, 0, v.self.subgraph.nodes[0].adjacency[r]), 0),
                  gt(v.max_distances[r], 0)), pats=lambda r: [v.max_distances[r]]))])],
+         late_hints=[("before:self.subgraph.calculate_pdf(best_k, self.distance_fn, self.pre_computed_distance, self.pre_distances)",
+                      lambda v, old: [
+                          ("final_lengths", forall(0, length(v.self.subgraph.nodes), lambda x: conj(
+                              eq(length(v.self.subgraph.nodes[x].adjacency), v.best_k), ge(v.self.subgraph.nodes[x].idx, 0)))),
+                          ("final_valid", K.adj_valid(v.self.subgraph))])],
          ghost=[("after:min_cut = c.FLOAT_MAX", "g_cut = [0.0 for _ in range(max_k + 1)]\ng_last = min_k - 1"),
                 ("after:cut = self._normalized_cut(k)", "g_cut[k] = cut\ng_last = k")],
          loops=[LoopSpec("for", var="k", inv=bmc_inv)])
